@@ -208,8 +208,12 @@ def _deribit_world(ctx, p, fut):
 
     n, k = p["bars"], p["k"]
     start = pd.Timestamp("2023-09-01 06:00:00")
-    uni, usdc, eth, pool = bars.make_uni(n * 60, "1min", start=start.to_pydatetime())
-    hours = [start + pd.Timedelta(hours=i) for i in range(n)]
+    step = p.get("step_min", 60)  # bar length in minutes: below 60 the hourly option market sits next to finer bars
+    uni, usdc, eth, pool = bars.make_uni(n * step, "1min", start=start.to_pydatetime())
+    n_hours = n if step == 60 else (n * step + 59) // 60 + 1  # finer bars: one more hourly row than the run reaches
+    hours = [start + pd.Timedelta(hours=i) for i in range(n_hours)]
+    t_k = start + pd.Timedelta(minutes=k * step)
+    k_bar, k = k, max(i for i, h in enumerate(hours) if h <= t_k)  # hourly rows up to and including bar k's hour are the past
     exp = start + pd.Timedelta("21D")
     und, mk = {}, {}
     for i, h in enumerate(hours):
@@ -652,6 +656,9 @@ def scenarios(tier):
         n = 3 if tier == "quick" else 4
         for k in range(0, n - 1):
             out.append(Scenario(f"deribit/1h/{'hole' if hole else 'complete'}/n{n}/k{k}", lookahead, params=dict(market="deribit", bars=n, k=k, hole=hole, interval="1h"), shadows=DERIBIT_SHADOWS, entry=("Actuator.run", "DeribitOptionMarket.set_market_status", "DeribitOptionMarket.buy", "DeribitOptionMarket.sell"), **kw))
+    # the hourly option market next to 20-minute bars: bars hh:20 and hh:40 lie between two hourly snapshots
+    for k in (1, 2, 4) if tier == "quick" else (0, 1, 2, 3, 4):
+        out.append(Scenario(f"deribit/20min/n6/k{k}", lookahead, params=dict(market="deribit", bars=6, k=k, interval="20min", step_min=20), shadows=DERIBIT_SHADOWS, entry=("Actuator.run", "DeribitOptionMarket.set_market_status", "DeribitOptionMarket._is_open"), **kw))
     # Squeeth on resampled 5-minute bars (the TWAP window is 7 minutes: it spans two bars' worth of the original rows)
     for k in (0, 1) if tier == "quick" else (0, 1, 2):
         out.append(Scenario(f"squeeth/5min/n3/k{k}", lookahead, params=dict(market="squeeth", bars=3 if tier == "quick" else 4, k=k, step=5, interval="5min"), shadows=SQUEETH_SHADOWS, entry=("Actuator.run", "SqueethMarket._resample", "SqueethMarket.get_twap_price"), **kw))
